@@ -178,6 +178,24 @@ func sm2pkeHistory(r *mrand.Rand, log func(map[string]interface{}), kind int) {
 			}
 		}
 		note = ""
+		if r.Intn(3) == 0 { // enveloped private key: the library wraps a fresh key for priv and unwraps it again
+			de := rbytes(r, 32)
+			de[0] &= 0x7f
+			inner, err := sm2.NewPrivateKey(de)
+			if err != nil {
+				panic("harness: sm2pke recorder: key refused: " + err.Error())
+			}
+			env, err := sm2.MarshalEnvelopedPrivateKey(r, &priv.PublicKey, inner)
+			log(map[string]interface{}{"op": "menv", "de": hx(de), "err": err != nil, "out": hx(env), "note": note})
+			if err == nil {
+				got, err := sm2.ParseEnvelopedPrivateKey(priv, env)
+				gd := ""
+				if err == nil {
+					gd = hx(got.D.FillBytes(make([]byte, 32)))
+				}
+				log(map[string]interface{}{"op": "penv", "env": hx(env), "err": err != nil, "out": gd, "note": note})
+			}
+		}
 		rounds := 1 + r.Intn(3)
 		for i := 0; i < rounds; i++ {
 			msg := rbytes(r, sm2pkeLens[r.Intn(len(sm2pkeLens))])
